@@ -45,6 +45,7 @@ RoundToM(ds, keep, mode) ==
     ELSE LET d == ds[keep + 1]
              lastodd == keep > 0 /\ ds[keep] % 2 = 1
              up == IF mode = "even" THEN d > 5 \/ (d = 5 /\ (~AllZero(ds, keep + 2) \/ lastodd))
+                   ELSE IF mode \in {"lib0", "lib1"} THEN d > 5 \/ (d = 5 /\ (mode = "lib1" \/ lastodd))   \* the library's flag instead of the exact tail (LibSticky)
                    ELSE IF mode = "up" THEN ~AllZero(ds, keep + 1) ELSE FALSE       \* "up": away from zero whenever digits are dropped; "down": truncation
              kept == SubSeq(ds, 1, keep)
          IN IF ~up THEN [ds |-> kept, carried |-> FALSE]
@@ -97,6 +98,45 @@ RealTextM(kind, bits, fmt, p, mode) ==
          IN (IF v.neg THEN <<45>> ELSE <<>>) \o body
 
 RealText(kind, bits, fmt, p) == RealTextM(kind, bits, fmt, p, "even")
+
+\* ---- the recorded rounding defect of Digit::realToString, as the library computes it ------------------------------------------
+\* The library produces precision + 1 digits by truncation and ONE flag (round_up) that stands for "something non-zero was dropped
+\* below them"; a cut digit 5 is rounded up when the flag is set and half-even otherwise.  The flag is an approximation:
+\*   integer path (no fraction is computed: the value has no fraction bits, or the Default format needs fewer digits than the
+\*   integer part has):  round_up = (decimal digits were dropped), whatever they were - and the fraction bits shifted out before
+\*   are forgotten;   fraction path:  round_up = (fraction bits were shifted out), whatever they were.
+\* LibSticky transcribes that flag from the bits of the value (realToString: digits / extra_digits / big_offset / no_fraction /
+\* drop / fraction_length / needed).  RealTextM(.., "lib0" / "lib1") is the reference text with this flag in place of the exact tail.
+\* realToString's estimate of the number of integer digits: the number of digits of 2^exponent (one short for values that have one more)
+LibDigits(kind, bits) ==
+    LET f == Fmt(kind)
+        b == FullBits(bits, f.mb + f.eb + 1)
+        ef == BitsToInt(SubSeq(b, f.mb + 1, f.mb + f.eb), 1)
+        bias == Pow2Small(f.eb - 1) - 1
+    IN IF ef >= bias THEN (((ef - bias) * 30103) \div 100000) + 1 ELSE 0
+LibSticky(kind, bits, fmt, p) ==
+    LET f == Fmt(kind)
+        b == FullBits(bits, f.mb + f.eb + 1)
+        ef == BitsToInt(SubSeq(b, f.mb + 1, f.mb + f.eb), 1)
+        bias == Pow2Small(f.eb - 1) - 1
+        frac == SubSeq(b, 1, f.mb)
+        tz == IF \E i \in 1..f.mb : frac[i] = 1 THEN (CHOOSE i \in 1..f.mb : frac[i] = 1 /\ \A j \in 1..(i - 1) : frac[j] = 0) - 1 ELSE f.mb
+        firstshift == IF ef # 0 THEN tz ELSE tz + 1                     \* (a subnormal mantissa is shifted left once)
+        firstbit == f.mb - firstshift
+        exponent == ef - bias                                           \* (-bias for subnormals)
+        ispos == exponent >= 0
+        posexp == IF ispos THEN exponent ELSE 0 - exponent
+        actual == posexp + (IF ef = 0 THEN firstbit ELSE 0)
+        digits == ((actual * 30103) \div 100000) + 1
+        fixed == fmt \in {"s", "f"}
+        extra == digits > p /\ ~fixed
+        nofraction == ispos /\ (posexp >= firstbit \/ extra)
+        fraclen == IF ispos THEN firstbit - posexp ELSE firstbit + posexp
+        needed == (IF ispos THEN (IF fixed THEN p ELSE p - digits) ELSE digits + p) + 1
+    IN IF nofraction THEN extra /\ digits - (p + 1) # 0 ELSE fraclen > needed
+\* formatStringNumberFixed adds: the flag is also set when the fraction starts with zeros (`round_up | (diff != 0)`: 0.0625 p3 -> 0.063)
+LibLeadingZeros(kind, bits, fmt) == LET v == Decode(kind, bits) IN fmt \in {"s", "f"} /\ Expansion(v.m, v.e).pt < 0
+RealTextLib(kind, bits, fmt, p) == RealTextM(kind, bits, fmt, p, IF LibSticky(kind, bits, fmt, p) \/ LibLeadingZeros(kind, bits, fmt) THEN "lib1" ELSE "lib0")
 
 \* integers: kind u8..i64, bits = two's complement bytes of the 64-bit container
 IntText(kind, bits) ==
